@@ -327,6 +327,10 @@ class World:
                 self.spinning = True
                 self.in_poll = False
                 self.sched.stop("spinning")
+            elif self._idle_polls >= self.SPIN_POLLS and not self.sched.runq:
+                # the loop spins while others only wait for timers: time passes meanwhile
+                if self.sched.fire_next_timer():
+                    self._idle_polls = 0
         else:
             self._idle_polls = 0
             self._last_poll_nevents = self.nevents
